@@ -413,6 +413,8 @@ func c06EndToEnd(res *vResult) {
 	c01Request(p, p.assocSetup(1), 1)
 	rng := vEnv.rng("c06e", 0)
 	held := map[uint64]string{} // UP SEID -> address
+	removedDL := map[uint64]bool{}
+	upTEID := map[uint64]uint32{}
 	seq := uint32(10)
 	for step := 0; step < vEnv.pick(300, 4000); step++ {
 		seq++
@@ -429,7 +431,35 @@ func c06EndToEnd(res *vResult) {
 			}
 			continue
 		}
+		if len(held) > 0 && rng.Intn(4) == 0 {
+			// a live session is modified: its PDRs are refreshed with the assigned address by value, or its downlink PDR
+			// (the one that asked for the address) is removed. The session keeps its address either way.
+			var ks []uint64
+			for k := range held {
+				ks = append(ks, k)
+			}
+			sort.Slice(ks, func(i, j int) bool { return ks[i] < ks[j] })
+			k := ks[rng.Intn(len(ks))]
+			base := c10Session(0, 0, 7000)
+			var mod vModSpec
+			if rng.Intn(2) == 0 && !removedDL[k] {
+				up, dn := base.PDRs[0], base.PDRs[1]
+				up.UEFlag, up.UEIP, dn.UEFlag, dn.UEIP = 0x02, held[k], 0x02, held[k]
+				up.TEID = upTEID[k]
+				mod = vModSpec{Seq: seq, SEID: k, UpPDR: []vPDRSpec{up, dn}}
+				res.event("e2e_refreshes", 1)
+			} else if !removedDL[k] {
+				mod = vModSpec{Seq: seq, SEID: k, RmPDR: []uint16{2}}
+				removedDL[k] = true
+				res.event("e2e_downlink_pdr_removals", 1)
+			} else {
+				continue
+			}
+			c01Request(p, p.modify(mod), seq)
+			continue
+		}
 		est := c10Session(seq, uint64(0x9000+step), 7000+step)
+		upTEIDNext := est.PDRs[0].TEID
 		est.PDRs[0].UEFlag, est.PDRs[0].UEIP = 0x04, ""
 		est.PDRs[1].UEFlag, est.PDRs[1].UEIP = 0x04, ""
 		m := c01Request(p, p.establish(est), seq)
@@ -466,6 +496,7 @@ func c06EndToEnd(res *vResult) {
 			}
 		}
 		held[up] = got
+		upTEID[up] = upTEIDNext
 		res.distinct("e2e/" + got)
 	}
 	res.eval(1)
